@@ -1,7 +1,7 @@
 CONSTANTS
   MaxOps = 1000000
 INIT Init
-NEXT Next
+NEXT NextQ
 VIEW MCView
 INVARIANTS TypeOK
 PROPERTIES PA_NoForeignWrite PA_GrantNeeded PA_GovOnly PA_FailureIsNoop
